@@ -1385,3 +1385,67 @@ def gen_macro_program(seed, bad=None):
         stop['argv'][1] = {'k': 'num', 'v': 5}            # a number where a finishcode is declared
         stop['_kinds'] = ['loop', 'expr', 'expr']
     return p, spell_program(p), twin, spell_program(twin)
+
+
+def gen_greedy_tie_program(seed):
+    """C09 / C20: greedy cases in which three or more clause patterns can finish on the same input, with priorities drawn
+    so that the highest priority is sometimes shared"""
+    r = random.Random(seed)
+    outs = [{'name': 'which', 'type': 'int', 'signed': None, 'width': None, 'default': 0}]
+    c1, c2 = r.sample(list(b'abcdefgh'), 2)
+    pats = [{'k': 're', 'r': {'k': 'seq', 'c': [{'k': 'set', 'inv': False, 'items': [['range', 97, 122]]}, {'k': 'set', 'inv': False, 'items': [['range', 97, 122]]}]}, 'bin': False},
+            {'k': 'str', 'bytes': [c1, c2]},
+            {'k': 're', 'r': {'k': 'seq', 'c': [{'k': 'ch', 'c': c1}, {'k': 'set', 'inv': False, 'items': [['range', 97, 104]]}]}, 'bin': False},
+            {'k': 're', 'r': {'k': 'seq', 'c': [{'k': 'set', 'inv': False, 'items': [['ch', c1], ['ch', 120]]}, {'k': 'ch', 'c': c2}]}, 'bin': False}]
+    n = r.randint(3, 4)
+    r.shuffle(pats)
+    cl = []
+    for i in range(n):
+        cl.append({'ps': [pats[i]], 'prio': r.choice([0, 1, 1, 2, 2]), 'b': [{'t': 'set', 'var': 'which', 'e': {'k': 'num', 'v': i + 1}}, {'t': 'match', 'm': {'k': 'str', 'bytes': [59]}}]})
+    body = [{'t': 'case', 'greedy': True, 'cl': cl}, {'t': 'match', 'm': {'k': 'str', 'bytes': [33]}}]
+    p = _mk(outs, [], [], [], body)
+    return p, spell_program(p)
+
+
+def gen_pair_program(seed):
+    """C09: statement pairs `A; B` where the end of A is found by lookahead and B starts with an overlapping, disjoint or
+    partially overlapping symbol set"""
+    r = random.Random(seed)
+
+    def cls():
+        a = r.randint(97, 104)
+        k = r.random()
+        if k < 0.4:
+            return {'k': 'set', 'inv': False, 'items': [['range', a, min(122, a + r.randint(0, 5))]]}
+        if k < 0.7:
+            return {'k': 'set', 'inv': False, 'items': [['ch', r.randint(97, 104)] for _ in range(r.randint(1, 3))]}
+        if k < 0.8:
+            return {'k': 'set', 'inv': True, 'items': [['ch', r.randint(97, 104)] for _ in range(r.randint(1, 2))]}
+        return {'k': 'ch', 'c': r.randint(97, 104)}
+    re_ = lambda x: {'k': 're', 'r': x, 'bin': False}
+    ka = r.randrange(6)
+    if ka == 0:
+        A = [{'t': 'match', 'm': re_({'k': 'plus', 'c': cls()})}]
+    elif ka == 1:
+        A = [{'t': 'match', 'm': re_({'k': 'seq', 'c': [{'k': 'ch', 'c': 120}, {'k': 'star', 'c': cls()}]})}]
+    elif ka == 2:
+        A = [{'t': 'opt', 'b': [{'t': 'match', 'm': re_(cls())}]}]
+    elif ka == 3:
+        A = [{'t': 'match', 'm': {'k': 'str', 'bytes': [120]}}, {'t': 'case', 'greedy': False, 'cl': [{'ps': [re_({'k': 'seq', 'c': [{'k': 'ch', 'c': 121}, {'k': 'star', 'c': cls()}]})], 'prio': 0, 'b': []},
+                                                                                                    {'ps': [{'k': 'str', 'bytes': [122]}], 'prio': 0, 'b': []}]}]
+    elif ka == 4:
+        A = [{'t': 'match', 'm': re_({'k': 'range', 'c': cls(), 'n': 1, 'm': 3})}]
+    else:
+        A = [{'t': 'loop', 'name': None, 'b': [{'t': 'match', 'm': re_({'k': 'plus', 'c': cls()})}, {'t': 'match', 'm': re_({'k': 'opt', 'c': {'k': 'ch', 'c': 44}})}]}]
+    kb = r.randrange(4)
+    if kb == 0:
+        B = [{'t': 'match', 'm': re_(cls())}]
+    elif kb == 1:
+        B = [{'t': 'match', 'm': {'k': 'stri', 'bytes': [r.randint(97, 104)]}}]
+    elif kb == 2:
+        B = [{'t': 'case', 'greedy': False, 'cl': [{'ps': [re_(cls())], 'prio': 0, 'b': []}, {'ps': [{'k': 'str', 'bytes': [33]}], 'prio': 0, 'b': []}]}]
+    else:
+        B = [{'t': 'opt', 'b': [{'t': 'match', 'm': re_(cls())}]}, {'t': 'match', 'm': {'k': 'str', 'bytes': [33]}}]
+    body = A + B + [{'t': 'match', 'm': {'k': 'str', 'bytes': [46]}}]
+    p = _mk([], [], [], [], body)
+    return p, spell_program(p)
